@@ -57,6 +57,9 @@ func allSpecs(thorough bool, seed uint64) []spec {
 				}
 				for _, f := range familiesFor(v, thorough) {
 					out = append(out, spec{v: v, victimIsClient: cl, k: k, fam: f, thorough: thorough, seed: seed})
+					if k == pointEst && (f == "small" || f == "rechdr" || f == "hshdr" || f == "corrupt" || f == "auth") {
+						out = append(out, spec{v: v, victimIsClient: cl, k: k, fam: f, thorough: thorough, seed: seed, wf: true})
+					}
 				}
 			}
 		}
